@@ -55,7 +55,7 @@ func (a *Analyzer) Classify(rule string) {
 			a.R.OK(rule, construct, pos, by, "effects: "+sigOrNone(sig))
 			continue
 		}
-		if ex := matchException(l, sig); ex != nil {
+		if ex := matchException(l, sig); ex != nil && !l.Hard {
 			a.R.OK(rule, construct, pos, "reviewed-exception", "effects: "+sig+" — "+ex.Reason)
 			continue
 		}
